@@ -318,6 +318,39 @@ def gen_data_case(rng, big):
     return {'mtu_i': mtu_i, 'mtu_r': mtu_r, 'cfg': cfg, 'labels': labels}
 
 
+def gen_bidir_case(rng, heavy=False):
+    """BOTH ends of a data link write bulk data before anything is delivered, each far more
+    than its credit window (initial credits + one replenishment of up to 32 frames) allows;
+    varied and asymmetric frame sizes and initial credits (1 included); then everything is
+    delivered until the wire is idle."""
+    pool = [23, 24, 31, 64, 127, 128, 255, 512] + ([1000, 2043] if heavy else [])
+    mtu_i, mtu_r = rng.choice([48, 100, 133, 2048]), rng.choice([48, 100, 133, 2048])
+    ndlc = rng.choice([1, 1, 1, 2])
+    chans = rng.shuffle(list(range(1, 31)))[:ndlc]
+    cfg = [(ch * 2, (rng.choice(pool), rng.choice([1, 1, 2, 3, 5, 7])), (rng.choice(pool), rng.choice([1, 1, 2, 3, 5, 7])))
+           for ch in chans]
+    labels = []
+    for d, ini, rsp in cfg:
+        mtu_a = min(rsp[0], mtu_r - 5)      # what A may put in a frame
+        mtu_b = min(ini[0], mtu_i - 5)
+        na = rng.range(36, 60) * mtu_a + rng.below(mtu_a)
+        nb = rng.range(36, 60) * mtu_b + rng.below(mtu_b)
+        if rng.chance(1, 3):
+            nb = nb // 2 + 34 * mtu_b // 2 + mtu_b          # asymmetric volumes, still beyond the window
+        parts_a = rng.choice([1, 1, 2, 3])
+        parts_b = rng.choice([1, 1, 2, 3])
+        wa = [(0, d, rng.below(1000), na // parts_a + (na % parts_a if k == 0 else 0)) for k in range(parts_a)]
+        wb = [(1, d, rng.below(1000), nb // parts_b + (nb % parts_b if k == 0 else 0)) for k in range(parts_b)]
+        # all writes happen before any delivery, in an arbitrary order
+        labels += rng.shuffle(wa + wb)
+    if rng.chance(1, 3):
+        # some traffic flows, then both ends write again
+        labels += [(2, 0, 0, 0), (3, 0, 0, 0)] * rng.range(3, 40)
+        d, ini, rsp = rng.choice(cfg)
+        labels += [(0, d, rng.below(1000), 40 * min(rsp[0], mtu_r - 5)), (1, d, rng.below(1000), 40 * min(ini[0], mtu_i - 5))]
+    return {'mtu_i': mtu_i, 'mtu_r': mtu_r, 'cfg': cfg, 'labels': labels}
+
+
 def run_data_impl(case, drain=True):
     """returns (per-label observations, final observation, drain labels appended, oracle verdict)"""
     async def main():
@@ -2065,6 +2098,7 @@ def load_corpus():
 # =========================================================================== run
 def run(ctx):
     ctx.rule = (
+        'bidirectional bulk: both ends of 1-2 data links write 36-60 frames worth of data each (frame sizes 23..2043, initial credits 1..7, asymmetric) before anything is delivered, then the wire is drained: both streams exact, both buffers empty, drained set. '
         'data: random multiplexer configurations (1-4 DLCs, max frame size 23..32767 biased to 23/127/128/129/'
         '32766/32767, initial credits 1..7 each side, L2CAP MTU 48..65535) x random schedules of writes (sizes '
         'around multiples of the payload limit) and single-frame deliveries in both directions, then drained; '
@@ -2109,6 +2143,11 @@ def run(ctx):
     r = rng.fork('data')
     for i in range(ctx.n(70, 1200)):
         cases.append(gen_data_case(r, big=(i % 8 == 0)))
+    # simultaneous bulk transfers in both directions
+    rb = rng.fork('bidir')
+    for i in range(ctx.n(12, 200)):
+        cases.append(gen_bidir_case(rb, heavy=(i % 6 == 5)))
+        ctx.count('data.bidirectional_bulk')
     batch = Batch()
     run_data(ctx, cases, batch)
     # ---- set-up / teardown
@@ -2180,8 +2219,8 @@ def search(ctx):
                 ctx.violation('hfp:' + b.split(':')[0], f'HFP service-level connection: {b}', {'kind': 'slc', 'case': case})
             if bad:
                 return
-    for _ in range(300):
-        case = gen_data_case(rng, False)
+    for k in range(380):
+        case = gen_bidir_case(rng, heavy=(k % 8 == 7)) if k < 80 else gen_data_case(rng, False)
         bad = run_data_impl(case)[3]
         if bad:
             ctx.violation('rfcomm:' + bad.split(':')[0], f'RFCOMM data path: {bad}', {'kind': 'data', 'case': _case_json(case)})
